@@ -266,6 +266,8 @@ class WritableVersion(dns.zone.WritableVersion):
                 new_node = self.zone.node_factory()
                 new_node.id = self.id  # type: ignore
                 new_node.rdatasets.extend(node.rdatasets)
+                # keep the other flags (e.g. DELEGATION) of the node we are copying
+                new_node.flags = node.flags  # type: ignore
                 self.changed.add(ename)
                 node = new_node
             assert isinstance(node, Node)
